@@ -4,7 +4,7 @@ find the unsound rows of Generated.fromImpls, pick fractional-bit counts that sa
 admissibility, generate a probe program that calls exactly that (newly admitted) conversion, run it and print request lines with the
 implementation's answers (`cvt_from|cvt_lossy s n f x s2 n2 f2 => bits`) for the driver to judge."""
 import re, subprocess, sys, os
-VERIF = os.environ.get('SFX_VERIF') or os.path.dirname(os.path.dirname(os.path.abspath(__file__)))
+VERIF = os.environ.get('SFX_VERIF') or os.path.dirname(os.path.dirname(os.path.realpath(__file__)))
 GEN = VERIF + '/lean/SfxModel/Generated.lean'
 PROBE = VERIF + '/harness/probe'
 
